@@ -40,6 +40,8 @@ def gen(tier, seed, rnd, kind):
                 cases.append(dict(mode="stage", ctx=stage, stage=stage, threads=threads, data=rnd.choice(["gauss", "swiss"]), N=N, D=3,
                                   k=rnd.choice([8, 12]) if stage != "hlle" else 12, td=td if stage != "hlle" else min(td, 2), dseed=rnd.randrange(1 << 30),
                                   delay_seed=rnd.randrange(1 << 30), delays=1, width=2.0, timeout=600, ticks=0))
+                if s == 0 and threads in (3, 8):
+                    cases[-1]["nested"] = 1  # also from inside an application parallel region (team smaller than the thread bound)
                 if stage in ("geo", "geo_lm") and s % 2 == 1 or (stage in ("geo", "geo_lm") and seeds == 1):
                     # a directed k-NN graph that is not strongly connected (clusters 1000 sigma apart plus outliers, k = 3, no
                     # connectivity check): sources reach different vertex sets, unreachable pairs keep the sentinel
